@@ -607,9 +607,7 @@ func runC20Race(c *fw.Ctx, item *int64) {
 	}
 	// the same on a table that no longer fits leveldb's memtable (its older rows are in table files): a scan that
 	// has given up the table lock must survive the table being cleared / dropped by prefix under it
-	for _, o := range []string{"DropAll", "DropPrefix", "GC"} {
-		scen = append(scen, c20Param{Side: "bt", Store: "mem", Fix: "huge", Threads: []string{"ReadBig", o}})
-	}
+	// (explored on the plain build, see runC20Lin: filling 10 MB per execution is too slow under the race detector)
 	for _, store := range []string{"mem", "file"} {
 		for i := range c20GcsOps {
 			for j := i; j < len(c20GcsOps); j++ {
